@@ -3,7 +3,7 @@
    stay the extracted inductive types. *)
 From Coq Require Import Extraction ExtrOcamlBasic.
 From Wencry Require Import Bytes AesSpec AesModel ModesSpec ModesModel HashSpec HashModel
-     Base64Spec Base64Model FileModel FileSpec PipeConc CliModel SrcRun SrcRun2.
+     Base64Spec Base64Model FileModel FileSpec PipeConc CliModel SrcRun SrcRun2 SrcRun3 CliConc.
 Extraction Language OCaml.
 Set Extraction Optimize.
 Extraction "model.ml"
@@ -21,4 +21,5 @@ Extraction "model.ml"
   SrcRun.src_hash_string SrcRun.src_hash_file SrcRun.src_aes SrcRun.src_mode SrcRun.src_b64_encode SrcRun.src_b64_decode
   SrcRun.src_b64_valid SrcRun.iob_state SrcRun.src_load SrcRun.src_export
   SrcRun2.src_hmac SrcRun2.src_cmphmac SrcRun2.src_verify SrcRun2.src_header SrcRun2.src_mode_factory
+  CliConc.src_cli_parse CliConc.cli_parse CliConc.abs_pak
   PipeConc.tag_run PipeConc.tag_tr PipeConc.tag_event PipeConc.terminal PipeConc.output PipeConc.crashed PipeConc.enabled_count.
